@@ -185,6 +185,19 @@ func c18Case(g *Gen, nops int) {
 	for i := 0; i < nops; i++ {
 		x := g.Intn(100)
 		k := c17PickKey(g, keys)
+		if x >= 19 && g.Intn(6) == 0 {
+			// absent key that strictly extends (or is a strict prefix of) a pool key: a verifier
+			// that matched leaf keys by prefix would hand out the stored key's value
+			k = append([]byte{}, keys[g.Intn(len(keys))]...)
+			if g.Intn(4) != 0 || len(k) == 0 {
+				k = append(k, g.Bytes(g.Pick(1, 1, 1, 2, 3))...)
+				if g.Intn(2) == 0 {
+					k[len(k)-1] = 0
+				}
+			} else {
+				k = k[:len(k)-1]
+			}
+		}
 		switch {
 		case x < 8:
 			g.Emit("set %s %s", hx(k), hx(c17Val(g)))
